@@ -379,6 +379,10 @@ def run(ctx):
         if p[0] == "ok" and p[1] != p[2]:
             di, si, vi, line, settings = cases[i]
             viol.append(("render-twice", {"doc": docs[di]["id"], "settings": settings, "requests": [line], "answer": a}))
+        if p[0] == "ok" and len(p) > 4 and p[4] != p[1]:
+            # (b') the code for the document after a later call that defines nothing (add_type of the schema `true`)
+            di, si, vi, line, settings = cases[i]
+            viol.append(("later-call", {"doc": docs[di]["id"], "settings": settings, "requests": [line], "answer": a}))
     # (c) across key-order / whitespace variants (and the in-process repetition)
     ok_groups = nontrivial = 0
     answer_kinds = {}
@@ -538,6 +542,7 @@ def replay(ctx, path):
         if len(set(answers)) > 1: bad = True
         p = answers[0].split(" ")
         if p[0] == "ok" and p[1] != p[2]: bad = True
+        if p[0] == "ok" and len(p) > 4 and p[4] != p[1]: bad = True
     if len(set(o[i] for o in outs for i in range(len(obj["requests"])))) > 1: bad = True
     print("differs" if bad else "identical")
     return 1 if bad else 0
